@@ -7,14 +7,14 @@ CONSTANTS
   Sessions = {"s1"}
   MaxLog = 6
   MaxCrash = 1
-  EnableBranch = TRUE
+  EnableBranch = FALSE
   SidecarNextSeq = FALSE
   LineageLocked = TRUE
-  SecondInput = TRUE
+  SecondInput = FALSE
   Tasks = {"k1"}
   TaskGuarded = TRUE
   Cold = FALSE
-  Guarded = TRUE
+  Guarded = FALSE
 INVARIANTS TypeOK GapFree AckedOnce MutexHeld
 PROPERTY AppendOnly
 CHECK_DEADLOCK FALSE
